@@ -34,6 +34,8 @@ def jobs(tier):
             js.append({'name': 'needed vs build 2 lines first=%s pre_out=%d' % (f, pl), 'harness': (H, 'h_hermetic'),
                        'params': {'nlines': 2, 'menu_name': 'small', 'fixed': [f], 'pre_out_len': pl, 'pre_temp_len': None,
                                   'mode_a': 'InMemoryBuild', 'mode_b': 'Build', 'clean_b': False, 'norewrite': True}})
+    from . import project
+    js += project.jobs('C09', tier)
     return js
 
 
